@@ -212,19 +212,29 @@ theorem iand_list_refines (l o : List CP) (hw : WInv l) (ho : AllValid o) :
     subst this
     exact ((hi n).mp hn).2 ho'
 
-/-- F13d witness: `^=` with a plain list whose entries overlap toggles the overlap twice, so the
-result is not the symmetric difference with the operand's set `{1..6}` (3 and 4 stay members).
-Stated on the operand list as the list constructor stores it (`[(1,5),(3,7)]`, already sorted). -/
-theorem ixor_list_overlap_fails :
-    ixor [.rng 0 10] [.rng 1 5, .rng 3 7] = [.one 0, .rng 3 5, .rng 7 10] ∧
-    memL 3 (ixor [.rng 0 10] [.rng 1 5, .rng 3 7]) ∧ memL 3 [.rng 1 5, .rng 3 7] ∧ memL 3 [.rng 0 10] := by
-  decide
+/-- `UnicodeSubset(list)` (after the F13d repair) is canonical and denotes the union of the list's
+entries, whatever their order and overlaps -/
+theorem of_list_canon (o : List CP) (ho : AllValid o) :
+    Canon (ofList o) ∧ ∀ x, memL x (ofList o) ↔ memL x o :=
+  ⟨iterCodePoints_canon o ho, iterCodePoints_mem false o ho⟩
 
-/-- PARTIAL (finding F13d): `^=` with a plain list operand is the symmetric difference with the
-(sorted) operand whenever its sorted entries do not overlap. -/
-theorem ixor_list_refines_partial (l o : List CP) (hw : WInv l) (ho : WInv (ofList o)) (x : Nat) :
-    memL x (ixorList l o) ↔ ((memL x l ∧ ¬ memL x (ofList o)) ∨ (¬ memL x l ∧ memL x (ofList o))) :=
-  (step_refines l (.ixor (ofList o)) hw ho).2 x
+/-- **`^=` with a plain list operand is the symmetric difference** with the union of the operand's
+entries, for ANY list of valid entries (unsorted, overlapping, repeated), and keeps the invariant.
+(Before the repair of the list constructor this held only for non-overlapping operands: F13d.) -/
+theorem ixor_list_refines (l o : List CP) (hw : WInv l) (ho : AllValid o) :
+    WInv (ixorList l o) ∧
+    ∀ x, memL x (ixorList l o) ↔ ((memL x l ∧ ¬ memL x o) ∨ (¬ memL x l ∧ memL x o)) := by
+  obtain ⟨hc, hm⟩ := of_list_canon o ho
+  obtain ⟨h1, h2⟩ := step_refines l (.ixor (ofList o)) hw (canon_winv hc)
+  refine ⟨h1, fun x => ?_⟩
+  have := h2 x
+  simp only [step, specStep] at this
+  rw [ixorList, this, hm x]
+
+/-- regression of the F13d witness: the overlap 3, 4 is toggled once -/
+example : ∀ x, memL x (ixorList [.rng 0 10] [.rng 1 5, .rng 3 7]) ↔
+    ((memL x [.rng 0 10] ∧ ¬ memL x [.rng 1 5, .rng 3 7]) ∨ (¬ memL x [.rng 0 10] ∧ memL x [.rng 1 5, .rng 3 7])) :=
+  (ixor_list_refines _ _ (by decide) (by intro v hv; simp at hv; rcases hv with rfl | rfl <;> simp)).2
 
 /-- non-vacuity of `run_refines`: a concrete non-trivial run (a test, not the theorem) -/
 example : run [.add (.rng 2 9), .discard (.one 4), .ixor [.rng 0 3]] [.rng 1 3, .rng 5 7]
